@@ -59,6 +59,7 @@ class RealSession:
         def log_close(conn):
             ev.append(f"sclose{conn}")
         w.close_hook = log_close
+        w.open_hook = lambda conn: ev.append(f"sopen{conn}")
         c.on_pre_connect = lambda cl, ud: ev.append("on_pre_connect")
         c.on_connect_fail = lambda cl, ud: ev.append("on_connect_fail")
         if proto == 5:
